@@ -1297,7 +1297,61 @@ class UriHelpers(Suite):
             raise Violation('uri_roundtrip', 'resp.%s = %r -> %r decodes to %r' % (kind, v, out, ref_decode(out)))
 
 
-SUITES = [Histories(), Cookies(), UriHelpers()]
+class ManyEntries(Suite):
+    """Counts beyond the moderate range, replayed like `histories` inside a real responder on both stacks: 70-600 distinct
+    header names set in mixed letter casing (every third deleted again under another casing, every fifth appended to),
+    one name appended to 300 times, set_headers() with a 300-entry dict, and 70-300 cookies of distinct names (every
+    fourth unset again).  The case-insensitive model must hold after every step and in what the server receives."""
+
+    name = 'many_entries'
+    exhaustive = True
+    budget = {'quick': 1, 'thorough': 1}
+
+    def cases(self, tier):
+        for n in ((70, 300) if tier == 'quick' else (63, 64, 65, 70, 129, 257, 300, 600)):
+            for shape in ('names', 'appends', 'bulk_dict', 'cookies'):
+                for secure in (False, True):
+                    yield {'n': n, 'shape': shape, 'secure_default': secure}
+
+    def run(self, case):
+        n, shape = case['n'], case['shape']
+        ops = []
+        if shape == 'names':
+            for i in range(n):
+                name = 'X-Many-%d' % i
+                ops.append(['set', name.upper() if i % 2 else name, 'v%d' % i])
+                if i % 5 == 0:
+                    ops.append(['append', name.lower(), 'more'])
+            for i in range(0, n, 3):
+                ops.append(['delete', ('X-Many-%d' % i).swapcase()])
+            ops.append(['get', 'x-many-%d' % (n - 1), None])
+        elif shape == 'appends':
+            for i in range(min(n, 300)):
+                ops.append(['append', 'X-Acc' if i % 2 else 'x-acc', 'item%d' % i])
+            ops.append(['get', 'X-ACC', None])
+        elif shape == 'bulk_dict':
+            ops.append(['set', 'x-bulk-3', 'old'])
+            ops.append(['set_headers', 'dict', [['X-Bulk-%d' % i, 'b%d' % i] for i in range(n)]])
+            ops.append(['set_headers', 'list', [['x-bulk-%d' % i, 'again%d' % i] for i in range(0, n, 7)]])
+        else:
+            for i in range(min(n, 300)):
+                ops.append(['cookie', {'name': 'ck%d' % i, 'value': 'v%d' % i, 'expires': None, 'max_age': 60 + i if i % 3 == 0 else None,
+                                       'domain': None, 'path': '/p' if i % 2 else None, 'secure': None, 'http_only': None, 'same_site': None,
+                                       'partitioned': None}])
+                if i % 4 == 0:
+                    ops.append(['unset', {'name': 'ck%d' % i, 'samesite': None, 'domain': None, 'path': None}])
+        ops.append(['headers'])
+        steps = [{'op': op, 'probe': i % 2048} for i, op in enumerate(ops)]
+        try:
+            Histories().run({'secure_default': case['secure_default'], 'steps': steps})
+        except Violation as v:
+            d = v.detail
+            raise Violation(v.kind, '%s ... %s\n  compact case=%r' % (d[:300], d[-300:], case))
+        return Info(True, ['shape:' + shape, 'n:%s' % ('<=64' if n <= 64 else '<=256' if n <= 300 else '>300')])
+
+
+
+SUITES = [Histories(), Cookies(), UriHelpers(), ManyEntries()]
 
 # Narrow predicates (the violation kinds below are raised for exactly one input class each), used only
 # if the corresponding finding is listed as `known` in known_findings.jsonl instead of being fixed.
